@@ -372,6 +372,16 @@ class Exec(Interp):
         if isinstance(recv, (VList, VTuple, VSeqObj)) and m in ("append", "extend", "insert"):
             arg = args[-1] if args else VOpq("?")
             return self.mutate_list(f.value, recv, m, arg, env, src(n.args[-1]) if n.args else "")
+        if isinstance(recv, VTuple) and m in ("add", "update", "discard"):
+            if m == "add" and args:
+                c, items = constof(args[0]), [constof(x) for x in recv.items]
+                if not (c is not NOC and c in items):
+                    self.bind(f.value, VTuple(recv.items + [args[0]], True), env)
+            elif m == "update" and args and isinstance(args[0], VTuple):
+                self.bind(f.value, VTuple(recv.items + args[0].items, True), env)
+            elif m == "update" and args:
+                self.bind(f.value, VSeqObj(VOpq("?setelem"), "set"), env)
+            return VConst(None)
         if isinstance(recv, (VList, VTuple, VSeqObj)):
             if m == "copy":
                 return VTuple(list(recv.items), recv.is_list) if isinstance(recv, VTuple) else recv
@@ -451,6 +461,14 @@ class Exec(Interp):
             fi = self.pm.find_method(cls, m)
             if fi:
                 return self.call_func(fi, recv, args, kw, n)
+        # method defined only on subclasses of the receiver's class: class-hierarchy join
+        for c0 in self.obj_classes(recv):
+            subs = [self.pm.classes[c].methods[m] for c in self.pm.subclasses(c0)
+                    if m in self.pm.classes[c].methods]
+            if subs:
+                outs = [self.call_func(fi, VObj(fi.cls, dict(recv.fields) if isinstance(recv, VObj) else {}), list(args), dict(kw), n)
+                        for fi in subs[:6]]
+                return self._join_all(outs)
         # polars / external objects: stay opaque but keep useful type hints
         if isinstance(recv, VOpq):
             t = recv.typ
@@ -467,7 +485,8 @@ class Exec(Interp):
         cands = [fi for fi in self.pm.funcs.values() if fi.cls and fi.name == m]
         if len(cands) == 1 and isinstance(recv, VOpq) and (recv.typ.startswith("?") or recv.typ in ("Any",)):
             return self.call_func(cands[0], VObj(cands[0].cls, {}), args, kw, n)
-        self.gap("mcall", m, src(n) + " recv=" + self.typename(recv))
+        if not (isinstance(recv, VOpq) and (recv.typ.startswith(("?", "pl.", "Any")) or recv.typ in ("file",))):
+            self.gap("mcall", m, src(n) + " recv=" + self.typename(recv))
         return VOpq("?mcall:" + m, src(n))
 
     def mutate_list(self, target_node, recv, m, arg, env, why):
